@@ -5,8 +5,12 @@ CHECKS = {
          "deterministic simulation (virtual-time multi-station ether, seeded plans, fault injection: drop/dup/delay/partition/restart/send errors) + history oracle"),
  "C02": ("net", "5", "Every frame handed to LinkLayer.send in seeded multi-station runs (originated beacon/SHB/GBC/GAC/GUC/LS and forwarded copies) is compared octet for octet with an independent reference encoding; every delivered conformant frame (including reference-peer injections with boundary-biased field values) is decoded by the repo's decoders and compared field by field. Field spaces are sampled, not swept.",
          "deterministic simulation (multi-station ether, reference peer injecting conformant packets) + ether conformance monitor against an independent reference codec"),
+ "C03": ("net+sec", "5", "2-4 secured real stacks exchange genuine traffic while an adversary node mutates captured secured frames (bit flips, byte substitutions, truncations, extensions at seeded positions), edits decoded fields and re-encodes, signs under self-made chains / tickets it does not own / re-signed or key-swapped certificates, strips the envelope or replays; every upper-layer indication must be justified by an independent verifier (raw ecdsa, chain to the configured root, permissions, validity); trust stores are re-verified at the end. Bit positions are sampled, not swept.",
+         "deterministic simulation (multi-station secured ether with a byzantine adversary node: corrupt/forge/replay faults in seeded orders) + independent cryptographic verifier as oracle"),
  "C04": ("rx", "5", "The real receive loops (RawLinkLayer.receive on a scripted fake socket, PythonCV2XLinkLayer.callback_handler_loop on a scripted queue) of a station wired like examples/all_sender_and_receiver.py are fed seeded streams mixing genuine peer traffic with random bytes, grammar-based malformed frames, mutations of valid unsecured and secured frames, undecodable facility payloads and MAC-filtered frames; the loop must stay alive, bad frames must leave no trace (handlers, emitted frames, location table, trust store, LDM) and a twin station that never saw the bad frames must stay identical.",
          "deterministic simulation (scripted socket/queue seam, receive loop as parked real thread, corrupt/inject fault sequences) + twin-station differential oracle and thread-liveness invariant"),
+ "C05": ("net+sec", "5", "2-5 secured real stacks send CAM/VAM/DENM/generic-profile messages in virtual time; stations join at seeded instants relative to the senders' 1 s certificate-inclusion timers, with and without pre-loaded peer tickets, on lossless and lossy ethers; every verification result at every receiver and every emitted envelope (decoded independently) is judged: acceptance when the certificate is carried or known, the P2PCD learning exchange step by step, the 1 s inclusion rule and the TS 103 097 7.1 header profiles.",
+         "deterministic simulation (virtual-time secured ether, late joiners, loss/partition faults) + per-message oracle over the recorded verification and emission history"),
  "C06": ("net", "5", "Line / ring / mesh topologies of 3-6 real stations plus a reference peer injecting TSB/GBC/GAC/GUC/LS packets with arbitrary RHL, exact duplicates and replays; every reception is classified by a reference duplicate packet list and the station's deliveries and transmissions are judged (at most once, never own address, forwarded copy = received with RHL-1, none for RHL 0/1, CBF copy dropped on duplicate, floods terminate).",
          "deterministic simulation (multi-hop ether, seeded duplication/replay/reorder/restart faults, virtual CBF timers) + reference DPL model and forwarding-equality monitor"),
  "C07": ("net", "5", "One sender and 3-8 real receivers placed inside / outside / near the border of circles, rectangles and ellipses anywhere on the globe (incl. rotation and the antimeridian); delivery is compared with an independent EN 302 931 oracle (two projections, tolerance band), oversize areas must be refused and the observable part of the Annex D choice is checked against the reference.",
@@ -44,6 +48,7 @@ man = {
            "source_commits": [], "add_only": True},
  "engines": [
   {"name": "net", "path": "fsim/netsim.py", "serves_properties": ["C01", "C02", "C06", "C07", "C08", "C20"], "kind_free_text": "discrete-event virtual-time kernel + simulated ether with several real GN/BTP stacks"},
+  {"name": "net+sec", "path": "fsim/secnet.py", "serves_properties": ["C03", "C05"], "kind_free_text": "NetSim stations with real SignService/VerifyService sharing a deterministic PKI (seeded ECDSA); verification and emission recorders"},
   {"name": "rx", "path": "fsim/rxsim.py", "serves_properties": ["C04"], "kind_free_text": "real link-layer receive loops on fake socket / queue seams feeding real GN, BTP, facilities, LDM and security; twin station for differential checking"},
   {"name": "fac", "path": "fsim/facsim.py", "serves_properties": ["C10", "C11"], "kind_free_text": "real CA/VRU/DEN services with real coders on virtual timers, simulated GNSS; recording BTP stub or real 2-station GN/BTP stack"},
   {"name": "fac-den", "path": "fsim/densim.py", "serves_properties": ["C17"], "kind_free_text": "real DEN service + EVA application + LDM on NetSim stations; repetition threads parked on virtual sleep"},
